@@ -191,13 +191,23 @@ _ADD5 = {
  "C19": "; retention as configured through logx.Config (Setup -> newFileWriter): for every KeepDays x MaxBackups x Rotation x Compress the writer judges a directory of pre-existing backups as the configuration says",
  "C20": "; the -style flag's way through config.NewConfig (third virtual package): the template reaches the formatter byte for byte, only a blank one is refused",
 }
+_ADD6 = {
+ "C02": "; handlers panicking with a nil value; handlers held open: every request is then either inside a handler or answered 503 - nobody waits inside the MaxConns guard",
+ "C05": "; inherit: the nested level absent / a value / null / empty x the enclosing level x optional x JSON and YAML",
+ "C09": "; arrivals and completions on different goroutines (schedule search): the in-flight count is back at zero and never negative",
+ "C14": "; a 61 s step (longer than the statistics interval) with calls still open",
+ "C18": "; a shared function that panics, followed by later calls with the same key (Do, DoEx, ResourceManager.Get): each executes afresh",
+ "C19": "; a foreign file sharing the prefix together with a backup limit",
+}
+for _k, _v in _ADD6.items():
+    _ADD[_k] = _ADD.get(_k, "") + _v
 for _k, _v in _ADD5.items():
     _ADD[_k] = _ADD.get(_k, "") + _v
 for _k, _v in _ADD4.items():
     _ADD[_k] = _ADD.get(_k, "") + _v
 for _k, _v in _ADD.items():
     CHECKS[_k]["text"] += _v
-for _k in ("C03", "C13"):
+for _k in ("C03", "C09", "C13"):
     CHECKS[_k]["technique"] += "; plus preemption-bounded schedule search (bound 2, thorough 3, happens-before pruning) of the concurrent scenarios on the instrumented real code"
 for _k in ("C01", "C02", "C03", "C06", "C07", "C08", "C09", "C10", "C14", "C15", "C16", "C17", "C18", "C19"):
     CHECKS[_k]["technique"] += "; plain memory accesses of the code under test are announced by the instrumenter, unordered conflicting accesses (vector clocks) become scheduling points and the scenario is explored again, so that racy interleavings are executed and judged by the same oracles"
